@@ -455,6 +455,16 @@ func (it *Interp) checkStats(b *Backend, sigp string) {
 				fail(sigp+"|archetype|unknown-component", "%s: archetype %d lists unknown component %d", where, ai, id)
 			}
 		}
+		if len(a.ComponentTypes) != len(a.ComponentIDs) || len(a.ComponentTypeNames) != len(a.ComponentIDs) {
+			fail(sigp+"|archetype|component-types", "%s: archetype %d lists %d IDs, %d types, %d type names", where, ai, len(a.ComponentIDs), len(a.ComponentTypes), len(a.ComponentTypeNames))
+		}
+		for j, id := range a.ComponentIDs {
+			for c := 0; c < comps.N; c++ {
+				if b.IDs[c].Index() == id && (a.ComponentTypes[j] != comps.All[c].Type || a.ComponentTypeNames[j] != comps.All[c].Type.Name()) {
+					fail(sigp+"|archetype|component-types", "%s: archetype %d component %d is reported as type %v / %q, registered as %v", where, ai, id, a.ComponentTypes[j], a.ComponentTypeNames[j], comps.All[c].Type)
+				}
+			}
+		}
 		key := fmt.Sprint(mask)
 		if seen[key] {
 			fail(sigp+"|archetype|duplicate", "%s: two archetypes with component set %s", where, names(mask))
@@ -549,6 +559,12 @@ func (it *Interp) checkStats(b *Backend, sigp string) {
 	}
 	if len(st.ComponentTypes) != b.Cfg.Filler+comps.N+it.M.Extra || len(st.ComponentTypeNames) != len(st.ComponentTypes) {
 		fail(sigp+"|world|component-types", "%s: %d component types reported, %d registered", where, len(st.ComponentTypes), b.Cfg.Filler+comps.N+it.M.Extra)
+	}
+	for c := 0; c < comps.N; c++ {
+		id := int(b.IDs[c].Index())
+		if id < len(st.ComponentTypes) && (st.ComponentTypes[id] != comps.All[c].Type || st.ComponentTypeNames[id] != comps.All[c].Type.Name()) {
+			fail(sigp+"|world|component-types", "%s: component ID %d is reported as type %v, registered as %v", where, id, st.ComponentTypes[id], comps.All[c].Type)
+		}
 	}
 	if b.Trace != nil {
 		b.tr("stats %+v mem=%d/%d arch=%d", en, st.MemoryUsed, st.Memory, len(st.Archetypes))
